@@ -274,3 +274,10 @@ def st_history(be, hiN):
 
 FACETS.append(Facet('np/state-histories', f_history, strategy=lambda t: st_history('np', 4), examples={'quick': 800, 'thorough': 40000}, shards={'quick': 2, 'thorough': 8}))
 FACETS.append(Facet('torch/state-histories', f_history, strategy=lambda t: st_history('torch', 3), examples={'quick': 200, 'thorough': 8000}, shards={'quick': 1, 'thorough': 4}, backend='torch'))
+
+
+from checks import large as _large
+FACETS.append(Facet('np/large-N-get_prob', _large.f_get_prob_large, strategy=lambda t: _large.st_big(pure=True), examples={'quick': 24, 'thorough': 600}, shards={'quick': 2, 'thorough': 8}))
+FACETS.append(Facet('np/large-N-overlap', _large.f_overlap_large, strategy=lambda t: _large.st_big({'extra': st.sampled_from([0, 1, 3, 10]), 'r2': st.integers(0, 8)}, pure=True),
+                    examples={'quick': 24, 'thorough': 600}, shards={'quick': 2, 'thorough': 8}))
+FACETS.append(Facet('np/large-N-expect', _large.f_expect_large, strategy=lambda t: _large.st_big(), examples={'quick': 40, 'thorough': 1500}, shards={'quick': 1, 'thorough': 4}))
